@@ -22,7 +22,7 @@
 From Coq Require Import List String Arith Bool Lia.
 Import ListNotations.
 From MVGen Require Import JsGates_gen.
-From MV Require Import Js.PrintModel Js.PrintSpec Js.PrintGen Js.PrintProofs Js.PrintGroup Js.RewriteModel Js.RewriteSem Js.RewriteProofs Js.RewritePipe Js.RewritePipeProofs Js.StmtModel Js.StmtSem Js.StmtProofs Js.StmtPrint Js.StmtParse Js.StmtPrintProofs Js.NumLit Js.NumLitSpec Js.NumLitProofs Js.StrLit Js.StrLitSpec Js.StrLitProofs.
+From MV Require Import Js.PrintModel Js.PrintSpec Js.PrintGen Js.PrintProofs Js.PrintGroup Js.RewriteModel Js.RewriteSem Js.RewriteProofs Js.RewritePipe Js.RewritePipeProofs Js.StmtModel Js.StmtSem Js.StmtProofs Js.StmtPrint Js.StmtParse Js.StmtPrintProofs Js.NumLit Js.NumLitSpec Js.NumLitProofs Js.StrLit Js.StrLitSpec Js.StrLitProofs Js.StrCat Js.StrCatProofs.
 From MV Require Js.PrintRender Js.PrintRenderProofs Js.StmtRender Js.StmtRenderProofs Js.StmtRenderClosed.
 From MV Require Base.MvBytes Num.NumModel Num.NumSpec.
 From Coq Require Import ZArith.
@@ -449,3 +449,34 @@ Print Assumptions function_body_bytes_lex_back_closed.
 
 Example generated_tables_sem_ok : RewriteSem.sem_tables_ok T_gen = true.
 Proof. vm_compute. reflexivity. Qed.
+
+(* ---------- string concatenations: "a" + 'b' + ... joined into one literal ----------
+   Js/StrCat.v transcribes mergeBinaryExpr + appendStringPart (the literal built BEFORE minifyString runs; tied byte for byte
+   through the hook VerifMergeStrings on 2,500 concatenations per run).  The joined body keeps the first delimiter and may
+   hold unescaped delimiters of that kind coming from parts quoted the other way; a trailing \0 / legacy octal escape is
+   rewritten \xHH when the next part starts with a digit it would absorb (the repair of K77).
+   For ALL valid literals, sloppy and strict mode, allowTemplate on and off: the merged and minified literal is valid for its
+   delimiter and its string value is the concatenation of the parts' values.  One hypothesis, shown necessary by a computed
+   counterexample (StrCatProofs.continuation_byte_wrong): an appended part does not START with one of the bytes 0x80, 0xA8,
+   0xA9 — such a byte could complete a line separator U+2028/9 after a backslash E2 80 at the end of the previous part;
+   impossible in well-formed UTF-8 source, where no literal body starts with a continuation byte (cont_ok_utf8). *)
+Theorem string_concatenation_keeps_its_value : forall tmpl legacy l1 v1 l2 v2 ls vs,
+  valid_lit legacy l1 v1 ->
+  Forall2 (valid_lit legacy) (l2 :: ls) (v2 :: vs) ->
+  Forall (fun l => cont_ok (body_of l)) (l2 :: ls) ->
+  exists q' body',
+    minify_string (merge_strings (l1 :: l2 :: ls)) tmpl = literal q' body' /\
+    (q' = c_dq \/ q' = c_sq \/ (tmpl = true /\ q' = c_bt)) /\
+    decode (legacy && negb (Z.eqb q' c_bt)) q' body' = Some (List.concat (v1 :: v2 :: vs)).
+Proof. intros tmpl legacy l1 v1 l2 v2 ls vs. apply concatenation_value. Qed.
+Print Assumptions string_concatenation_keeps_its_value.
+
+(* minifyString repairs the unescaped delimiters of a joined body: for ANY body read with both quote kinds as ordinary
+   characters *)
+Theorem minify_string_repairs_foreign_quotes : forall q body tmpl legacy v,
+  decode_raw legacy body = Some v ->
+  exists q' body', minify_string (literal q body) tmpl = literal q' body' /\
+    (q' = c_dq \/ q' = c_sq \/ (tmpl = true /\ q' = c_bt)) /\
+    decode (legacy && negb (Z.eqb q' c_bt)) q' body' = Some v.
+Proof. intros q body tmpl legacy v. apply minify_string_raw_value. Qed.
+Print Assumptions minify_string_repairs_foreign_quotes.
